@@ -305,7 +305,7 @@ def same_isfast(chk, program):
         g.run()
     except sym.Unsupported as u:
         raise AnalysisError(str(u))
-    rets = [e for e in g.events if e[0] == 'return']
+    rets = [e for e in sym.split_ite_events(g.events) if e[0] == 'return']
     fast_call = [e for e in rets if e[2][0] == 'call' and e[2][1][0] == 'attr' and e[2][1][2] == '_encode_fast_message']
     single = [e for e in rets if e[2][0] == 'list']
     okk = len(fast_call) == 1 and len(single) == 1
